@@ -138,8 +138,60 @@ def ix_fnv(items):
     return L.fnv64(b''.join(L.p64(k) + L.p64(v) for k, v in sorted(items)))
 
 
-def open_dump(wd, files, oids, tids, read_only=False):
-    """write `files`, open with the real FileStorage, dump everything.  Returns dict or {'error': …}"""
+def write_program(fs, oids, tids):
+    """the same short write program through a freshly opened storage, whatever it was opened with:
+    overwrite existing objects with their current serial, a store with a stale serial (must conflict),
+    deleteObject, undo of the last transaction, a new object.  Returns the outcomes."""
+    import base64
+    from ZODB.Connection import TransactionMetaData
+    from ZODB.POSException import POSKeyError
+    out = []
+    base = max([L.u64(fs.lastTransaction())] + list(tids)) + 0x1000000
+    existing = []
+    for o in oids:
+        try:
+            existing.append((o, fs.load(L.p64(o), '')[1]))
+        except Exception:
+            pass
+
+    def txn(k, body):
+        md = TransactionMetaData(b'', b'write program %d' % k, b'')
+        try:
+            fs.tpc_begin(md, tid=L.p64(base + k * 0x100))
+        except Exception as e:
+            out.append('begin %d: %s' % (k, L.ename(e)))
+            return
+        try:
+            body(md)
+            fs.tpc_vote(md)
+            fs.tpc_finish(md)
+            out.append('txn %d: committed' % k)
+        except Exception as e:
+            out.append('txn %d: %s' % (k, L.ename(e)))
+            try:
+                fs.tpc_abort(md)
+            except Exception as e2:
+                out.append('abort %d: %s' % (k, L.ename(e2)))
+    for i, (o, serial) in enumerate(existing[:3]):
+        txn(i, lambda md, o=o, serial=serial, i=i: fs.store(L.p64(o), serial, b'rewritten-%d' % i * 3, '', md))
+    if existing:
+        o, serial = existing[0]
+        txn(4, lambda md: fs.store(L.p64(o), serial, b'stale serial, must conflict', '', md))
+    if len(existing) > 1:
+        o = existing[1][0]
+        try:
+            cur = fs.load(L.p64(o), '')[1]
+            txn(5, lambda md: fs.deleteObject(L.p64(o), cur, md))
+        except Exception as e:
+            out.append('load before delete: ' + L.ename(e))
+    txn(6, lambda md: fs.store(L.p64(0x7777), L.Z64, b'a new object', '', md))
+    txn(7, lambda md: fs.undo(base64.encodebytes(L.p64(base + 6 * 0x100)).rstrip(b'\n'), md))
+    return out, [base + k * 0x100 for k in range(8)]
+
+
+def open_dump(wd, files, oids, tids, read_only=False, writes=False):
+    """write `files`, open with the real FileStorage, dump everything (and, if `writes`, run the write
+    program through the opened storage and dump again).  Returns dict or {'error': …}"""
     from ZODB.FileStorage import FileStorage
     L.write_dir(wd, files)
     try:
@@ -152,12 +204,21 @@ def open_dump(wd, files, oids, tids, read_only=False):
         d['index'] = [['%016x' % k, v] for k, v in sorted(items)]
         used = getattr(fs, '_used_index', None)
         internal = dict(used=used, ixfnv=ix_fnv(items), n=len(items))
+        after = L.read_dir(wd).get('Data.fs', b'')
+        d['datafs_after'] = [len(after), hashlib.sha1(after).hexdigest()]
+        internal['after_len'] = len(after)
+        internal['after_fnv'] = L.fnv64(after) if len(after) <= 20000 else None
+        if writes and not read_only:
+            outcomes, newtids = write_program(fs, oids, tids)
+            d['after_writes:outcomes'] = outcomes
+            d2 = L.dump_storage(fs, sorted(set(oids) | {0x7777}), sorted(set(tids) | set(newtids)))
+            for k, v in d2.items():
+                d['after_writes:' + k] = v
     finally:
         fs.close()
-    after = L.read_dir(wd).get('Data.fs', b'')
-    d['datafs_after'] = [len(after), hashlib.sha1(after).hexdigest()]
-    internal['after_len'] = len(after)
-    internal['after_fnv'] = L.fnv64(after) if len(after) <= 20000 else None
+    if writes and not read_only:
+        final = L.read_dir(wd).get('Data.fs', b'')
+        d['after_writes:datafs'] = [len(final), hashlib.sha1(final).hexdigest()]
     return dict(dump=d, internal=internal)
 
 
@@ -312,11 +373,32 @@ def part_a(ck, hist, tag, pack=None, model=True):
             model = False
     slot_of = {}
     for name, data, evidx, nret, torn, cc in targets:
-        base = open_dump(wd, {'Data.fs': data}, oids, tids)
+        base = open_dump(wd, {'Data.fs': data}, oids, tids, writes=True)
         if 'error' in base:
             # not C09's business (C01 judges crash images); with-index must then not do better/worse silently
             ck.count('baseline-open-raised')
             continue
+        ro_base = open_dump(wd, {'Data.fs': data}, oids, tids, read_only=True)
+        ck.case([hid, name, 'read-only-vs-writable', True], torn, None)
+        if 'error' in ro_base:
+            viol.append(('C09:ro-open-raised', 'read-only open of %s raised %s, the writable open succeeds'
+                         % (name, ro_base['error']), dict(history=hist, pack=pack, target=name, variant='read-only')))
+            ro_base = base
+        else:
+            skip = ('datafs_after',)
+            a = {k: v for k, v in ro_base['dump'].items() if k not in skip and not k.startswith('after_writes:')}
+            b = {k: v for k, v in base['dump'].items() if k not in skip and not k.startswith('after_writes:')}
+            diff = first_diff(a, b)
+            dkeys = sorted(k for k in set(a) | set(b) if a.get(k) != b.get(k))
+            if dkeys == ['iterator_start'] and any(isinstance(x, str) for x in a.get('iterator_start', [])):
+                viol.append(('C09:ro-iterator-start-raises-on-torn-tail', 'read-only open of %s: iterator(start) raises on '
+                             'the unfinished tail: %s' % (name, diff),
+                             dict(history=hist, pack=pack, target=name, variant='read-only')))
+            elif diff:
+                viol.append(('C09:ro-shows-uncommitted-tail' if torn else 'C09:ro-differs-from-writable',
+                             'read-only open of %s (which leaves the tail alone) does not show the state of the '
+                             'committed prefix that the writable open shows: %s' % (name, diff),
+                             dict(history=hist, pack=pack, target=name, variant='read-only')))
         packed = name == 'packed'
         if packed and model:
             # the packed file as a fresh model history
@@ -336,7 +418,7 @@ def part_a(ck, hist, tag, pack=None, model=True):
             for vname, extra in pack_variants[name]:
                 files = {'Data.fs': data}
                 files.update(extra)
-                got = open_dump(wd, files, oids, tids)
+                got = open_dump(wd, files, oids, tids, writes=True)
                 ck.case([hid, name, vname, False], True, None)
                 ck.count('variant:pack-crash-' + vname)
                 if 'error' in got:
@@ -370,8 +452,11 @@ def part_a(ck, hist, tag, pack=None, model=True):
             files = {'Data.fs': data}
             files.update(extra)
             ro = ck.rng.random() < 0.25 and not vname.startswith('leftovers')
-            want = base if not ro else open_dump(wd, {'Data.fs': data}, oids, tids, read_only=True)
-            got = open_dump(wd, files, oids, tids, read_only=ro)
+            wr = not vname.startswith('trunc') or vname in ('trunc0', 'trunc1')
+            want = base if not ro else ro_base
+            got = open_dump(wd, files, oids, tids, read_only=ro, writes=wr)
+            if not wr and 'dump' in got and 'dump' in want:
+                want = dict(want, dump={k: v for k, v in want['dump'].items() if not k.startswith('after_writes:')})
             nontriv = age >= 2 or torn
             ck.case([hid, name, vname, ro], nontriv,
                     dict(target=name, variant=vname, index_age_txns=age, torn=torn,
@@ -664,6 +749,35 @@ def ro_session(ck, spec):
                     writer.tpc_abort(md)
                 writer.close()
             return viol, None, None, mode, []
+        # the read-only instance must show exactly the committed prefix (iterator, iterator(start), undoLog,
+        # current records, every load …) although the unfinished tail stays in the file
+        committed_pos = writer._pos if writer is not None else len(rr.final)
+        refdir = os.path.join(ck.tmp, 'roref-%d' % spec.get('index', 0))
+        with open(path, 'rb') as f:
+            L.write_dir(refdir, {'Data.fs': f.read()[:committed_pos]})
+        try:
+            got = L.dump_storage(ro, oids, tids)
+            ref = FileStorage(os.path.join(refdir, 'Data.fs'), read_only=True)
+            try:
+                want = L.dump_storage(ref, oids, tids)
+            finally:
+                ref.close()
+            diff = first_diff(got, want)
+            if diff:
+                dkeys = sorted(k for k in set(got) | set(want) if got.get(k) != want.get(k))
+                sig = 'C09:ro-shows-uncommitted-tail'
+                if dkeys == ['iterator_start'] and any(isinstance(x, str) for x in got.get('iterator_start', [])):
+                    sig = 'C09:ro-iterator-start-raises-on-torn-tail'
+                viol.append((sig, 'read-only instance (%s) does not show the state of the committed prefix: %s'
+                             % (mode, diff), dict(spec, calls=[])))
+        except Exception as e:
+            viol.append(('C09:ro-dump-raised', 'dumping the read-only instance (%s) raised %s' % (mode, L.ename(e)),
+                         dict(spec, calls=[])))
+        if vfs.snapshot(root) != before or any(e[0] == 'VIOLATED-RO' for e in rec.events):
+            viol.append(('C09:ro-mutated:reads', 'read-only instance (%s): the read-only queries modified the directory'
+                         % mode, dict(spec, calls=[])))
+            rec.events[:] = [e for e in rec.events if e[0] != 'VIOLATED-RO']
+            before = vfs.snapshot(root)
         names = list(spec['calls'])
         if not names or names[-1] != 'close':
             names.append('close')
